@@ -929,24 +929,51 @@ REF_NODES = (32, 128, 32)
 CHUNK_SWITCH = 20_000_000
 
 
-@st.composite
-def chunked_cases(draw):
-    cyl = draw(cylinder_cases("any", aspect=(0.55, 1.5)))        # h/r >= 3.5: the longest z rule
-    _, beam = draw(beam_cases(cyl))
-    wl_unit, wls = _wavelengths(draw, 2)
-    return {
-        "cyl": cyl, "beam": beam, "wl_unit": wl_unit, "wavelengths": wls,
-        "det_unit": draw(st.sampled_from(LEN_UNITS)), "det_seed": draw(st.integers(0, 2**32 - 1)),
-        "extra": draw(st.sampled_from([1, 1, 2, 7])),
-        "layout": draw(st.sampled_from(["1d", "1d", "2d-rows-below-switch", "2d-rows-above-switch"])),
-        "material": draw(material_cases()), "kind": "expensive",
-        "mu_size": draw(st.floats(0.3, 3.0)),
-    }
+def chunked_cases(tier, seed):
+    """Seeded list of cases (a pure function of VERIF_SEED; each case costs ~10 s, so the quick tier
+    takes two that must differ, which Hypothesis' all-minimal first example would not give)."""
+    import random
+
+    rng = random.Random(seed * 7919 + 18)
+    out = []
+    for k in range(2 if tier == "quick" else 48):
+        acls = ["generic", "generic", "negz", "z", "-z", "x"][rng.randrange(6)]
+        if acls in ("generic", "negz"):
+            v = _normalised([rng.gauss(0, 1) for _ in range(3)])
+            if acls == "negz":
+                v[2] = -abs(v[2])
+        else:
+            v = {"z": [0.0, 0.0, 1.0], "-z": [0.0, 0.0, -1.0], "x": [1.0, 0.0, 0.0]}[acls]
+        r = 10.0 ** rng.uniform(-3, 1.4)
+        h = min(r * 10.0 ** rng.uniform(0.55, 1.5), 1e3)               # h/r >= 3.5: the longest z rule
+        base = [0.0, 0.0, 0.0] if rng.random() < 0.4 else [c * h * rng.uniform(0.1, 10) for c in
+                                                         _normalised([rng.gauss(0, 1) for _ in range(3)])]
+        cyl = {"unit": rng.choice(LEN_UNITS), "axis": [float(c) for c in v], "axis_class": acls,
+               "base": [float(c) for c in base], "r": r, "h": h}
+        bcls = rng.choice(["generic", "generic", "axial", "z"])
+        beam = (_normalised([rng.gauss(0, 1) for _ in range(3)]) if bcls == "generic"
+                else [float(c) for c in v] if bcls == "axial" else [0.0, 0.0, 1.0])
+        wl_unit = rng.choice(["angstrom", "nm"])
+        wls = sorted({10.0 ** rng.uniform(-1, math.log10(20)) for _ in range(rng.randint(1, 2))})
+        wls = [w * (1.0 if wl_unit == "angstrom" else 0.1) for w in wls]
+        if rng.random() < 0.5:
+            mat = {"kind": "isotope", "name": rng.choice(ISOTOPES), "dens_unit": rng.choice(sorted(DENSITY_LEN))}
+        else:
+            mat = {"kind": "custom", "sigma_s": 10.0 ** rng.uniform(-2, 3), "sigma_a": 10.0 ** rng.uniform(-2, 5),
+                   "xs_unit": rng.choice(sorted(AREA)), "dens_unit": rng.choice(sorted(DENSITY_LEN))}
+        out.append({
+            "cyl": cyl, "beam": [float(c) for c in beam], "wl_unit": wl_unit, "wavelengths": wls,
+            "det_unit": rng.choice(LEN_UNITS), "det_seed": rng.randrange(2**32),
+            "extra": rng.choice([1, 1, 2, 7]),
+            "layout": ["1d", "2d-rows-below-switch", "2d-rows-above-switch", "1d"][(k + seed) % 4],
+            "material": mat, "kind": "expensive", "mu_size": rng.uniform(0.3, 3.0),
+        })
+    return out
 
 
 def _hash_unit_vectors(seed, n):
     """n directions on the sphere from a counter hash (splitmix64), no RNG state."""
-    i = np.arange(1, 3 * n + 1, dtype=np.uint64) + np.uint64(seed) * np.uint64(0x9E3779B97F4A7C15)
+    i = np.arange(1, 3 * n + 1, dtype=np.uint64) + np.uint64((int(seed) * 0x9E3779B97F4A7C15) % 2**64)
     with np.errstate(over="ignore"):
         z = i * np.uint64(0x9E3779B97F4A7C15)
         z = (z ^ (z >> np.uint64(30))) * np.uint64(0xBF58476D1CE4E5B9)
@@ -1220,8 +1247,8 @@ FACETS = [
           quick=(1, 30), thorough=(4, 200), shrink=False, min_nontrivial=0.2,
           doc="same oracle, beam a few rounding errors off the axis (or along it, then rotated) without "
               "staying bit-identical to it (isolates the near-parallel path-length defect in the map)"),
-    Facet("transmission_large_map", check_chunked, strategy=lambda tier: chunked_cases(),
-          quick=(2, 2), thorough=(16, 4), shrink=False, min_nontrivial=0.5,
+    Facet("transmission_large_map", check_chunked, enumerate=chunked_cases,
+          quick=(2, 0), thorough=(16, 0), shrink=False, min_nontrivial=0.5,
           doc="quadrature points x detectors above the 2e7 switch to the per-detector loop (1-d and 2-d "
               "detector arrays) equals the same detectors evaluated in pieces below the switch"),
     Facet("transmission_negz", check_transmission, strategy=lambda tier: transmission_cases("negz"),
